@@ -355,6 +355,9 @@ func (c *EvalCtx) call(x *ast.CallExpr) Term {
 		}
 		body.Pat = pat.S
 		return body
+	case "allocNow":
+		// the allocation bound of the current state: every object existing now has own() <= allocNow()
+		return mkT(c.st.alloc.S, SInt, types.Typ[types.Int])
 	case "store":
 		a, i, v := c.eval(x.Args[0]), c.eval(x.Args[1]), c.eval(x.Args[2])
 		return store(a, i, v)
